@@ -100,8 +100,9 @@ def cache_field(prog):
     raise AnalysisError("FrameQueueFrag cache attribute not found")
 
 
-def run(ck, func, recv, self_val, args, st, model=None, limits=None):
+def run(ck, func, recv, self_val, args, st, model=None, limits=None, decide=False):
     it = Interp(ck.prog, model or Model(), limits or Limits(max_paths=8000, loop_unroll=2))
+    it.decide_results = decide
     outs = it.run(func, recv, self_val, list(args), st=st)
     ck.absorb(it)
     ck.analysed(func)
@@ -373,6 +374,7 @@ class NetNode:
 
     def __init__(self, ck, module, clsname, summaries=True):
         self.ck, self.prog = ck, ck.prog
+        use_program(ck.prog)
         self.cls = ck.prog.cls(module, clsname)
         self.radio = Radio(ck)
         self.model = self.radio.model
@@ -404,14 +406,14 @@ class NetNode:
         node = st.alloc("obj", cls=self.cls, label="node")
         cell = st.heap[node.ident]
         cell.fields["_rf24"] = self.radio.ref
-        ints = {"_addr": (0, 0o7777), "_mask": (0, 0xFFFF), "_mask_inv": (0, 0xFFFF), "_net_lvl": (0, 4), "_parent": (0, 0o7777), "_parent_pipe": (0, 5),
-                "tx_timeout": (0, None), "route_timeout": (0, None), "max_message_length": (0, None), "_id": (0, 255)}
+        ints = {FN("_addr"): (0, 0o7777), "_mask": (0, 0xFFFF), "_mask_inv": (0, 0xFFFF), FN("_net_lvl"): (0, 4), FN("_parent"): (0, 0o7777), "_parent_pipe": (0, 5),
+                "tx_timeout": (0, None), "route_timeout": (0, None), "max_message_length": (0, None), FN("_id"): (0, 255)}
         for k, rng in ints.items():
             set_rng(st, "node." + k, rng)
             cell.fields[k] = Sym("node." + k, "int", rng=rng)
         if addr is not None:
-            cell.fields["_addr"] = Const(addr)
-        for k in ("_relay_enabled", "_frag_enabled", "allow_multicast", "ret_sys_msg", "_parenthood", "_do_dhcp"):
+            cell.fields[FN("_addr")] = Const(addr)
+        for k in (FN("_relay_enabled"), FN("_frag_enabled"), "allow_multicast", "ret_sys_msg", FN("_parenthood"), "_do_dhcp"):
             cell.fields[k] = Sym("node." + k, "bool")
         cell.fields["queue"] = sym_queue(st, self.prog, queue, nframes=0, max_size=None, label="queue")
         cell.fields["frame_buf"] = sym_frame(st, self.prog, "frame_buf", frame_pins, msg_len=msg_len)
@@ -426,8 +428,9 @@ class NetNode:
                              self.radio.ref.ident: "radio"}
         return st, node
 
-    def run(self, func, node, args, st, kwargs=None, limits=None):
+    def run(self, func, node, args, st, kwargs=None, limits=None, decide=False):
         it = Interp(self.prog, self.model, limits or Limits(max_paths=60000, loop_unroll=2, depth=14))
+        it.decide_results = decide      # a predicate that returns an undecided comparison: one outcome per truth value
         vals = [a if hasattr(a, "key") else Const(a) for a in args]
         outs = it.run(func, self.cls, node, vals, kwargs, st=st)
         self.ck.absorb(it)
@@ -446,6 +449,12 @@ def addr_digits(out, name="node_addr"):
             continue
         v = e.data[1]
         if isinstance(v, tuple):
+            # addr.bit_length() == k, decided by the interpreter's fork on the highest set bit: ceil(k / 3) digits
+            if len(v) == 2 and isinstance(e.node, ast.Call) and isinstance(e.node.func, ast.Attribute) and e.node.func.attr == "bit_length":
+                b = as_bitv(norm(v[0])) if hasattr(v[0], "key") else None
+                k = const_of(norm(v[1]))
+                if b is not None and isinstance(k, int) and all(t == 0 or (isinstance(t, tuple) and t[0] == "s" and t[1] == (name, i)) for i, t in enumerate(b.bits)):
+                    best = max(best, (k + 2) // 3)
             continue
         b = as_bitv(norm(v)) if hasattr(v, "key") else None
         if b is None:
@@ -460,3 +469,58 @@ def addr_digits(out, name="node_addr"):
         if ok:
             best = max(best, sh // 3 + 1)
     return best
+
+
+def handler_args(f, mtype):
+    """arguments for a frame handler: the message type if the handler takes it as a parameter; nothing if it reads the type from the
+    frame buffer itself (the scenarios pin frame_buf.header.message_type to the same value either way)"""
+    nparams = len(f.node.args.args) - 1
+    return [mtype if hasattr(mtype, "key") else Const(mtype)] if nparams >= 1 else []
+
+
+# ---- private field names are inferred from the public accessors that expose them, so renaming one is not noticed -----------------------
+_FIELD_SOURCES = {
+    # canonical private name: (module, class, public property whose getter returns / reads it)
+    "_addr": ("network.mixins", "NetworkMixin", "node_address"),
+    "_net_lvl": ("network.mixins", "NetworkMixin", "multicast_level"),
+    "_parent": ("network.mixins", "NetworkMixin", "parent"),
+    "_frag_enabled": ("network.mixins", "NetworkMixin", "fragmentation"),
+    "_relay_enabled": ("network.mixins", "NetworkMixin", "multicast_relay"),
+    "_id": ("rf24_mesh", "RF24MeshNoMaster", "node_id"),
+    "_parenthood": ("rf24_mesh", "RF24MeshNoMaster", "allow_children"),
+}
+_FIELD_CACHE = {}
+_CURRENT = [None]
+
+
+def use_program(prog):
+    _CURRENT[0] = prog
+
+
+def FN(name):
+    """actual name of the private field canonically called `name` in the tree under analysis (the canonical name if it cannot be told)"""
+    prog = _CURRENT[0]
+    if prog is None or name not in _FIELD_SOURCES:
+        return name
+    key = (id(prog), name)
+    if key not in _FIELD_CACHE:
+        mod, cls, prop = _FIELD_SOURCES[name]
+        actual = name
+        try:
+            c = prog.cls(mod, cls)
+            hit = c.lookup(prop)
+            g = hit[1].getter if hit and hit[0] == "prop" else None
+            if g is not None:
+                loads = []
+                for x in ast.walk(g.node):
+                    if isinstance(x, ast.Attribute) and isinstance(x.ctx, ast.Load) and isinstance(x.value, ast.Name) and x.value.id == "self":
+                        h2 = c.lookup(x.attr)
+                        if x.attr.startswith("_") and not x.attr.startswith("__") and not (h2 and h2[0] in ("prop", "method")):
+                            loads.append(x.attr)
+                uniq = sorted(set(loads))
+                if len(uniq) == 1:
+                    actual = uniq[0]
+        except AnalysisError:
+            pass
+        _FIELD_CACHE[key] = actual
+    return _FIELD_CACHE[key]
